@@ -154,7 +154,8 @@ class TlcResult:
 def tlc(module, cfg=None, workers=4, timeout=900, env_extra=None, simulate=None, depth=None,
         coverage=False, extra=None, metadir=None, xmx="4g", deque=False, tlc_seed=None, cwd=SPEC):
     """Runs TLC on spec/<module>.tla. Returns TlcResult. Raises ToolError on timeout."""
-    md = metadir or os.path.join(WORK, "tlc-%s-%d" % (module, os.getpid()))
+    import uuid
+    md = metadir or os.path.join(WORK, "tlc-%s-%d-%s" % (module, os.getpid(), uuid.uuid4().hex[:8]))
     shutil.rmtree(md, ignore_errors=True)
     os.makedirs(md, exist_ok=True)
     jopts = "-Xss1g"
